@@ -327,7 +327,13 @@ def oracle(ctx, hints=()):
             if ck != 'ortho' and not np.allclose(U, np.eye(3)):
                 seen.add(tuple(np.round(U.ravel(), 9)) + tuple(np.round(c, 9)))
             sample = sample or {'U': U.tolist(), 'cell': c, 'hkl': hs[0]}
-            M, mk = det_pos_matrix(ctx.rng)
+            try:
+                M, mk = det_pos_matrix(ctx.rng)
+            except (ValueError, ZeroDivisionError, FloatingPointError, np.linalg.LinAlgError) as e:
+                # form_b_mat raised on a valid cell while the harness was building U.B
+                viol.append(_viol('tools/laue', 'form_b_mat:raised', {'cell': 'valid cell drawn by gens.cell(scaled=True)'},
+                                  '%s: %s' % (type(e).__name__, e), 'no exception on a valid cell'))
+                M, mk = np.eye(3), 'posdiag'
             kinds['M:' + mk] = kinds.get('M:' + mk, 0) + 1
             if mk not in ('posdiag',):
                 seen.add(tuple(np.round(M.ravel() / np.abs(M).max(), 9)))
